@@ -184,6 +184,7 @@ impl Variant {
 pub const K: &str = "k";
 pub const KL: &str = "a-long-key-of-22-bytes";
 pub const VS: &str = "a-string-of-20-bytes";
+pub const K3: &str = "k3";
 
 #[derive(Clone, Debug)]
 pub enum Step {
@@ -325,7 +326,9 @@ pub fn alphabet_h() -> Vec<Named> {
         ("remove_alias_a", Q(q::remove_aliases(&["a"]))),
         ("insert_index_k", Q(q::index(K))),
         ("insert_index_kl", Q(q::index(KL))),
+        ("insert_index_k3", Q(q::index(K3))),
         ("remove_index_k", Q(q::remove_index(K))),
+        ("remove_index_kl", Q(q::remove_index(KL))),
         ("values_multi_fail_midway", Q(q::values(vec![id(1), id(9)], vec![vec![kv(K, 7_i64)], vec![kv(K, 7_i64)]]))),
         ("tx_commit_node_edge", Tx(vec![q::nodes_aliases(&["t"]), q::edges(vec![al("t")], vec![id(1)])], false)),
         ("tx_abort_node", Tx(vec![q::nodes_count(1)], true)),
@@ -365,6 +368,16 @@ pub fn base_states() -> Vec<(&'static str, Vec<Step>)> {
             ],
         ),
         ("alias_map_near_rehash", many_aliases),
+        (
+            "three_indexes",
+            vec![
+                Q(q::nodes_values(vec![vec![kv(K, 1_i64), kv(KL, 2_i64), kv(K3, 3_i64)], vec![kv(K, 2_i64), kv(K3, 3_i64)]])),
+                Q(q::index(K)),
+                Q(q::index(KL)),
+                Q(q::index(K3)),
+                Q(q::edges_uniform(vec![id(1)], vec![id(2)], vec![kv(K3, 3_i64)])),
+            ],
+        ),
     ]
 }
 
@@ -394,7 +407,7 @@ pub struct Dump {
 }
 
 pub fn key_universe() -> Vec<DbValue> {
-    vec![K.into(), KL.into()]
+    vec![K.into(), KL.into(), K3.into()]
 }
 pub fn value_universe() -> Vec<DbValue> {
     vec![1_i64.into(), 2_i64.into(), 3_i64.into(), 7_i64.into(), VS.into()]
